@@ -281,6 +281,7 @@ pub fn gen_udp(rng: &mut impl Rng) -> UdpCase {
         4 => rng.gen_range(0..=65507),
         _ => rng.gen_range(0..=300),
     };
+    let n = crate::cap(n);
     UdpCase {
         src: rng.u32_biased().to_be_bytes(),
         dst: rng.u32_biased().to_be_bytes(),
@@ -369,6 +370,7 @@ pub fn gen_tcp(rng: &mut impl Rng, k: u64) -> TcpCase {
         3 => rng.gen_range(0..=65515),
         _ => rng.gen_range(0..=200),
     };
+    let n = crate::cap(n);
     TcpCase {
         src: rng.u32_biased().to_be_bytes(),
         dst: rng.u32_biased().to_be_bytes(),
@@ -841,7 +843,7 @@ pub fn report(d: &mut Delta, r: Result<Vec<(String, String)>, String>, codec: &s
 
 fn run(env: &Env, k: u64, d: &mut Delta) {
     let mut rng = scenario_rng("C08", env.seed, k);
-    let n = env.tier.pick(450, 900);
+    let n = env.tier.pick3(450, 900, 2);
     for i in 0..n {
         ipv4_case(d, &mut rng);
         ipv4_bytes_case(d, &mut rng);
